@@ -30,6 +30,17 @@ type pset struct {
 	Xs       string   `json:"xs,omitempty"` // "" ternary p=0.5 | "h" sparse | "gauss"
 }
 
+// sample renders the set for the evidence file (moduli as decimal strings: they exceed 2^53).
+func (p pset) sample() map[string]any {
+	str := func(v []uint64) (o []string) {
+		for _, x := range v {
+			o = append(o, fmt.Sprint(x))
+		}
+		return
+	}
+	return map[string]any{"name": p.Name, "logN": p.LogN, "q": str(p.Q), "p": str(p.P), "ring": p.Ring, "t": p.T, "logScale": p.LogScale, "pow2": p.Pow2, "coeffDomain": p.NoNTT, "xs": p.Xs}
+}
+
 func (p pset) ringType() ring.Type {
 	if p.Ring == "ci" {
 		return ring.ConjugateInvariant
@@ -392,7 +403,7 @@ func runSamplers(c *eng.Ctx, ps pset) {
 		return
 	}
 	n := rq.N()
-	c.Sample(map[string]any{"group": "samplers", "param": ps})
+	c.Sample(map[string]any{"group": "samplers", "params": ps.sample()})
 	newS := func(k samplerKind, key string, r *ring.Ring) ring.Sampler {
 		s, err := ring.NewSampler(keyedPRNG(key), r, k.x, k.mont)
 		if err != nil {
